@@ -47,7 +47,7 @@ def _read_contract(cid, reqs):
             ens.append(f"not bool({ri}) and {ri}.value is None and isinstance({ri}.error, str) and len({ri}.error) > 0 and {ri}.tag == {r!r}")
         else:
             exp = R[r][4].format(d=f"d{i}")
-            ens.append(f"({ri}.tag == {name!r} and {ri}.value == {exp} and {ri}.type == {R[r][5]} and {ri}.error is None and bool({ri})) "
+            ens.append(f"({ri}.tag == {name!r} and same({ri}.value, {exp}) and {ri}.type == {R[r][5]} and {ri}.error is None and bool({ri})) "
                        f"if st{i} == 0 else (not bool({ri}) and {ri}.value is None and len({ri}.error) > 0)")
     contract(
         id=cid, func=LD + ".read", call="d.read(" + ", ".join(repr(r) for r in reqs) + ")", params=params,
